@@ -215,6 +215,61 @@ fn special_cases(seed: u64, first: usize, n: usize) -> Vec<(String, Vec<(ItemPat
     out
 }
 
+/// Programs in which a name chosen by the user coincides with a name the backend generates
+/// (or with another user name that ends up in the same Rust scope). Each must be rejected
+/// or must compile.
+pub fn clash_cases(first: usize) -> Vec<(String, Vec<(ItemPath, Module)>, usize)> {
+    let texts: Vec<(&str, &str)> = vec![
+        ("vfunc-named-vftable", "pub type V { vftable { fn first(&mut self); pub fn vftable(&self); }, pub x: u64, }"),
+        ("impl-fn-named-vftable", "pub type V { vftable { fn first(&mut self); }, pub x: u64, }\nimpl V { #[address(0x1000)] pub fn vftable(&self) -> u32; }"),
+        ("field-named-vftable", "pub type V { vftable { fn first(&mut self); }, pub vftable: u64, }"),
+        ("derived-impl-fn-named-vftable", "pub type V { vftable { fn first(&mut self); }, pub x: u64, }\npub type D { #[base] pub base: V, }\nimpl D { #[address(0x1000)] pub fn vftable(&self) -> u32; }"),
+        ("later-base-fn-named-vftable", "pub type V { vftable { fn first(&mut self); }, pub x: u64, }\npub type B { pub y: u64, }\nimpl B { #[address(0x1000)] pub fn vftable(&self) -> u32; }\npub type D { #[base] pub base: V, #[base] pub b: B, }"),
+        ("first-base-fn-named-vftable", "pub type B { pub y: u64, }\nimpl B { #[address(0x1000)] pub fn vftable(&self) -> u32; }\npub type D { vftable { fn v(&self); }, #[base] pub b: B, }"),
+        ("field-named-like-padding", "#[align(4)] pub type T { pub _field_4: u32, #[address(8)] pub x: u32, }"),
+        ("field-named-like-later-padding", "#[align(4)] pub type T { pub a: u32, #[address(8)] pub x: u32, pub _field_4: u32, }"),
+        ("vfunc-named-like-placeholder", "pub type V { vftable { fn _vfunc_1(&self); #[index(2)] fn b(&self); }, }"),
+        ("vfunc-named-like-later-placeholder", "pub type V { vftable { #[index(1)] fn b(&self); fn _vfunc_0(&self); }, }"),
+        ("own-fn-named-like-renamed-base-fn", "pub type A { pub x: u32, }\nimpl A { #[address(0x1000)] pub fn run(&self); }\npub type B { pub x: u32, }\nimpl B { #[address(0x1040)] pub fn run(&self); }\npub type D { #[base] pub a: A, #[base] pub b: B, }\nimpl D { #[address(0x1080)] pub fn b_run(&self); }"),
+        ("third-base-fn-named-like-renamed-base-fn", "pub type A { pub x: u32, }\nimpl A { #[address(0x1000)] pub fn run(&self); }\npub type B { pub x: u32, }\nimpl B { #[address(0x1040)] pub fn run(&self); }\npub type C { pub x: u32, }\nimpl C { #[address(0x1080)] pub fn b_run(&self); }\n#[align(4)] pub type D { #[base] pub a: A, #[base] pub b: B, #[base] pub c: C, }"),
+        ("earlier-base-fn-named-like-renamed-base-fn", "pub type C { pub x: u32, }\nimpl C { #[address(0x1080)] pub fn b_run(&self); }\npub type A { pub x: u32, }\nimpl A { #[address(0x1000)] pub fn run(&self); }\npub type B { pub x: u32, }\nimpl B { #[address(0x1040)] pub fn run(&self); }\n#[align(4)] pub type D { #[base] pub c: C, #[base] pub a: A, #[base] pub b: B, }"),
+        ("impl-fn-named-get-on-singleton", "#[singleton(0x7000)] pub type S { pub x: u32, }\nimpl S { #[address(0x1000)] pub fn get(&self) -> u32; }"),
+        ("static-fn-named-get-on-singleton", "#[singleton(0x7000)] pub type S { pub x: u32, }\nimpl S { #[address(0x1000)] pub fn get() -> u32; }"),
+        ("two-extern-values-of-one-name", "#[address(0x7000)] pub extern x: u32;\n#[address(0x7040)] pub extern x: u64;"),
+        ("extern-value-named-like-another-getter", "#[address(0x7000)] pub extern x: u32;\n#[address(0x7040)] pub extern get_x: u64;"),
+        ("two-fields-of-one-name", "pub type T { pub a: u32, pub a: u32, }"),
+        ("two-variants-of-one-name", "pub enum E: u32 { A, A, }"),
+        ("two-vfuncs-of-one-name", "pub type V { vftable { fn a(&self); fn a(&self); }, }"),
+        ("two-parameters-of-one-name", "pub type T { pub a: u32, }\nimpl T { #[address(0x1000)] pub fn f(&self, a: u32, a: u32); }"),
+        ("two-vfunc-parameters-of-one-name", "pub type V { vftable { pub fn f(&self, a: u32, a: u32); }, }"),
+        ("parameter-named-f", "pub type T { pub a: u32, }\nimpl T { #[address(0x1000)] pub fn g(&self, f: u32) -> u32; }"),
+        ("vfunc-parameter-named-f", "pub type V { vftable { pub fn g(&self, f: u32) -> u32; }, }"),
+        ("vfunc-parameter-named-this", "pub type V { vftable { pub fn g(&self, this: u32) -> u32; }, }"),
+        ("static-parameter-named-f", "pub type T { pub a: u32, }\nimpl T { #[address(0x1000)] pub fn g(f: u32, this: u64) -> u32; }"),
+        ("base-field-and-fn-share-a-name", "pub type A { pub x: u32, }\nimpl A { #[address(0x1000)] pub fn a(&self); }\npub type D { #[base] pub a: A, }"),
+        ("type-named-like-size-check", "pub type T { pub a: u32, }\npub type _T_size_check { pub a: u32, }"),
+        ("variant-named-like-type", "pub enum E: u32 { E, T, }\npub type T { pub e: E, }"),
+        ("vfunc-and-field-share-a-name", "pub type V { vftable { pub fn x(&self); }, pub x: u64, }"),
+        ("impl-fn-and-field-share-a-name", "pub type T { pub x: u64, }\nimpl T { #[address(0x1000)] pub fn x(&self) -> u64; }"),
+        ("receiver-not-first", "pub type T { pub a: u32, }\nimpl T { #[address(0x1000)] pub fn g(a: u32, &self) -> u32; }"),
+        ("two-receivers", "pub type T { pub a: u32, }\nimpl T { #[address(0x1000)] pub fn g(&self, &mut self) -> u32; }"),
+        ("vfunc-receiver-not-first", "pub type V { vftable { pub fn g(a: u32, &self) -> u32; }, }"),
+        ("vfunc-without-receiver", "pub type V { vftable { pub fn g(a: u32) -> u32; }, }"),
+        ("type-named-like-module-segment", "pub type kclash { pub x: u64, }\npub type U { pub k: kclash, }"),
+    ];
+    let mut out = vec![];
+    for (k, (name, text)) in texts.iter().enumerate() {
+        let text = text.replace("\\n", "\n");
+        for ptrw in [8usize, 4] {
+            let m = pyxis::parser::parse_str(&text).unwrap_or_else(|e| panic!("clash case {name} does not parse: {e:?}"));
+            let id = format!("k{}_", first + out.len());
+            let _ = k;
+            out.push((id.clone(), vec![(ItemPath::from(format!("{id}clash_{}", name.replace('-', "_")).as_str()), m)], ptrw));
+        }
+    }
+    out
+}
+
 pub fn run(ctx: &mut Ctx) {
     ctx.rule = "accepted multi-module programs from the rich generator with copyable/cloneable/defaultable drawn independently of the field types, cross-module by-value and pointer references between pub types, inheritance, singletons on types and enums, extern values, valid-Rust prologues/epilogues, plus dedicated marker/packed/enum-singleton/repeated-discriminant cases; every output must parse with syn and the assembled crate (module tree mirroring the input, extern types supplied as Copy+Clone+Default structs, ABI strings normalised) must pass rustc --emit=metadata on the host; the struct/enum definitions must also compile with nightly for i686-pc-windows-msvc. non-trivial = accepted program with >=2 modules and >=1 cross-module reference, or a dedicated case; distinct by structural hash".into();
     ctx.assumptions.push("documented fragment: power-of-two alignments, arrays and gaps of at most 32 bytes in defaultable types, only pub types referenced across modules, integer enum bases".into());
@@ -254,14 +309,27 @@ pub fn run(ctx: &mut Ctx) {
     let sp = special_cases(seed, inputs.len(), ctx.tier.pick(300, 4000));
     ctx.count("dedicated_cases", sp.len() as u64);
     inputs.extend(sp);
+    let cl = clash_cases(inputs.len());
+    ctx.count("name_clash_cases", cl.len() as u64);
+    inputs.extend(cl);
 
     let built: Vec<BuildOutcome> = inputs.par_iter().map(|(id, m, p)| l2::build_mods(id, m, *p)).collect();
     let mut accepted: Vec<Built> = vec![];
     for (o, inp) in built.into_iter().zip(inputs.iter()) {
         ctx.eval();
         match o {
-            BuildOutcome::Built(b) => accepted.push(b),
-            BuildOutcome::Rejected(_) => ctx.count("rejected_by_pyxis", 1),
+            BuildOutcome::Built(b) => {
+                if let Some(n) = inp.1[0].0.to_string().split("clash_").nth(1) {
+                    ctx.count(&format!("name_clash_accepted/{n}"), 1);
+                }
+                accepted.push(b)
+            }
+            BuildOutcome::Rejected(_) => {
+                if let Some(n) = inp.1[0].0.to_string().split("clash_").nth(1) {
+                    ctx.count(&format!("name_clash_rejected/{n}"), 1);
+                }
+                ctx.count("rejected_by_pyxis", 1)
+            }
             BuildOutcome::Unparsable { module, error, .. } => {
                 ctx.violation("C13/output-not-parsable", &format!("`{module}`: {error}"), case_json(&inp.1, inp.2));
             }
@@ -278,7 +346,7 @@ pub fn run(ctx: &mut Ctx) {
             // errors in one case can hide others: iterate, dropping culprits
             let mut all: BTreeMap<usize, Vec<String>> = BTreeMap::new();
             let mut active: Vec<usize> = (0..chunk.len()).collect();
-            for _ in 0..4 {
+            for _ in 0..=chunk.len() {
                 let sel: Vec<&Built> = active.iter().map(|i| chunk[*i]).collect();
                 if sel.is_empty() {
                     break;
